@@ -19,6 +19,8 @@ Definition spec_warnings (c : cfg) (rh : list step_input) (i : step_input) (out 
                                  then count_fails (fin (i b)) (warn_limit b (nf c b) out) else 0) + acc) 0 (seq 0 (nb c))
   else 0.
 
+Definition is_success (r : routine_outcome) : bool := match r with Success => true | _ => false end.
+
 Definition check_step (c : cfg) (rh : list step_input) (ro : list outcome) (prev : list (list Z))
                       (i : step_input) (out : outcome) (o : obs) : bool :=
   let bl := seq 0 (nb c) in
@@ -31,6 +33,11 @@ Definition check_step (c : cfg) (rh : list step_input) (ro : list outcome) (prev
   (* a failed computation keeps the stored matrix *)
   && forallb (fun b => forallb (fun k => implb (is_fail (rout (fin (i b) k)))
                                                (Z.eqb (tok_at (o_toks o) b k) (tok_at prev b k))) (seq 0 (nf c b))) bl
+  (* a successful computation the loop got to is stored (whatever the other factors of the block did) *)
+  && forallb (fun b => forallb (fun k => implb (refresh_step c rh i && present (i b) && reached b out
+                                                && (k <? warn_limit b (nf c b) out)
+                                                && is_success (rout (fin (i b) k)) && fm_finite (fin (i b) k))
+                                               (Z.eqb (tok_at (o_toks o) b k) (Z.of_nat (S (length rh))))) (seq 0 (nf c b))) bl
   (* a raising step writes no parameter *)
   && (outcome_eqb out Ok || forallb negb (o_pchg o))
   (* the counters are the number of consecutive failed refreshes *)
@@ -94,6 +101,10 @@ Record step_spec (c : cfg) (rh : list step_input) (ro : list outcome) (prev : li
   sp_fin : forall l f, In l (o_fins o) -> In f l -> f = true;
   sp_keep : forall b k, b < nb c -> k < nf c b -> rout (fin (i b) k) = Fail ->
               tok_at (o_toks o) b k = tok_at prev b k;
+  sp_store : forall b k, b < nb c -> k < nf c b -> refresh_step c rh i = true -> present (i b) = true ->
+               reached b out = true -> k < warn_limit b (nf c b) out ->
+               rout (fin (i b) k) = Success -> fm_finite (fin (i b) k) = true ->
+               tok_at (o_toks o) b k = Z.of_nat (S (length rh));
   sp_par : out <> Ok -> forall x, In x (o_pchg o) -> x = false;
   sp_cnt : o_cnts o = map (fun b => consec c b (i :: rh) (out :: ro)) (seq 0 (nb c));
   sp_bad : forall b k, b < nb c -> k < nf c b -> refresh_step c rh i = true -> present (i b) = true ->
@@ -137,7 +148,7 @@ Lemma check_step_sound c rh ro prev i out o : check_step c rh ro prev i out o = 
 Proof.
   unfold check_step. intros H.
   apply andb_true_iff in H as [H H7]. apply andb_true_iff in H as [H H8]. apply andb_true_iff in H as [H H6]. apply andb_true_iff in H as [H H5].
-  apply andb_true_iff in H as [H H4]. apply andb_true_iff in H as [H H3]. apply andb_true_iff in H as [H1 H2].
+  apply andb_true_iff in H as [H H4]. apply andb_true_iff in H as [H H9]. apply andb_true_iff in H as [H H3]. apply andb_true_iff in H as [H1 H2].
   split.
   - intros b Hb. rewrite forallb_forall in H1. specialize (H1 b). rewrite in_seq in H1.
     assert (Hin : 0 <= b < 0 + nb c) by lia. apply H1 in Hin. apply Bool.eqb_prop in Hin.
@@ -146,6 +157,9 @@ Proof.
   - intros b k Hb Hk Hf. rewrite forallb_forall in H3. assert (Hin : In b (seq 0 (nb c))) by (apply in_seq; lia).
     specialize (H3 b Hin). rewrite forallb_forall in H3. assert (Hik : In k (seq 0 (nf c b))) by (apply in_seq; lia).
     specialize (H3 k Hik). unfold is_fail in H3. rewrite Hf in H3. cbn in H3. now apply Z.eqb_eq.
+  - intros b k Hb Hk Hr Hp Hre Hl Hs Hfm. rewrite forallb_forall in H9. assert (Hin : In b (seq 0 (nb c))) by (apply in_seq; lia).
+    specialize (H9 b Hin). rewrite forallb_forall in H9. assert (Hik : In k (seq 0 (nf c b))) by (apply in_seq; lia).
+    specialize (H9 k Hik). apply Nat.ltb_lt in Hl. rewrite Hr, Hp, Hre, Hl, Hs, Hfm in H9. cbn in H9. now apply Z.eqb_eq.
   - intros Ho x Hx. apply orb_true_iff in H4 as [H4|H4]; [apply outcome_eqb_eq in H4; contradiction|].
     rewrite forallb_forall in H4. specialize (H4 x Hx). now destruct x.
   - now apply list_eqb_nat_eq.
@@ -301,6 +315,8 @@ Proof.
     unfold block_ok, facts_ok in Hok. rewrite Forall_forall in Hok. exact (Hok fs Hfs).
   - intros b k _ _ Hf. rewrite !tok_at_facts. pose proof (failure_keeps_previous_matrix c rh i b k Hf) as E.
     unfold step_input in *. rewrite E. reflexivity.
+  - intros b k Hb Hk Hr Hp Hre Hl Hs Hfm. rewrite tok_at_facts.
+    pose proof (success_is_stored c b k Hb Hk rh i Hr Hp Hre Hl Hs Hfm) as E. unfold step_input in *. rewrite E. reflexivity.
   - intros Ho x Hx. apply (pchg_of_same (blocks (state_r c rh)) (blocks (state_r c (i :: rh)))); [|exact Hx].
     symmetry. exact (nan_raises_before_param_update c rh i Ho).
   - rewrite (list_as_nth (map cnt (blocks (state_r c (i :: rh))))) at 1.
@@ -351,5 +367,18 @@ Module CheckerExamples.
   Example warnings_of_model_run : map o_warn (model_obs c1 h5) = [1; 0; 1; 0; 0].
   Proof. reflexivity. Qed.
   Example checker_rejects_missing_warning : C13_behaviour_checkb c1 h5 silent = false /\ agree c1 h5 silent = false.
+  Proof. split; reflexivity. Qed.
+  (* step 3 (block 1: factor 0 throws, factor 1 computes fine): a run that leaves factor 1 of block 1 stale - what
+     guarding the copy with all(success_tracker) does - is rejected although every exception and counter is right *)
+  Definition stale : list obs :=
+    match model_obs c1 h5 with
+    | o1 :: o2 :: o3 :: r =>
+        o1 :: o2 :: {| o_out := o_out o3; o_cnts := o_cnts o3; o_toks := [[3; 3]; [1; 0]]%Z; o_fins := o_fins o3; o_pchg := o_pchg o3;
+                       o_calls := o_calls o3; o_warn := o_warn o3 |} :: r
+    | l => l
+    end.
+  Example tokens_of_model_run : map o_toks (firstn 3 (model_obs c1 h5)) = [[[1; 1]; [1; 0]]; [[2; 2]; [1; 0]]; [[3; 3]; [1; 3]]]%Z.
+  Proof. reflexivity. Qed.
+  Example checker_rejects_stale_later_factor : C13_behaviour_checkb c1 h5 stale = false /\ agree c1 h5 stale = false.
   Proof. split; reflexivity. Qed.
 End CheckerExamples.
